@@ -222,6 +222,9 @@ func cmdCheck(args []string) {
 		for _, se := range u.SpecErrs {
 			toolErrors = append(toolErrors, "specification error in "+ukey+": "+se)
 		}
+		if u.Vacuous != "" {
+			toolErrors = append(toolErrors, fmt.Sprintf("vacuity: the assumptions of %s are contradictory where it returns (%s): nothing proved about it counts", ukey, u.Vacuous))
+		}
 		for _, d := range u.Detached {
 			fmt.Println("DETACHED:", d)
 			detachedClauses = append(detachedClauses, d)
